@@ -13,7 +13,8 @@ RULE = ("pure part: path templates from the corpus, from a grammar of the AIP cl
         "spaces, percent signs, unicode, '/' and newlines. One case = one (template, value) pair, distinct by canonical JSON, "
         "non-trivial when the template has a named segment. Implicit part: structured http path templates (0-3 variables, dotted and "
         "reserved names, sub-patterns) and noisy strings. End to end: generated APIs (explicit rules of 1-4 parameters with shared "
-        "keys, nested and reserved fields, no template / class templates; implicit rules; no rule), each method called through the "
+        "keys, nested and reserved fields, no template / class templates; implicit rules incl. custom http patterns; no rule; one fixed API "
+        "through the alternative Ads template tree, sync gRPC only), each method called through the "
         "sync gRPC, asyncio gRPC and REST clients against loopback servers with 4-6 request valuations; one case = one "
         "(method, request, transport) call.")
 TRUSTED = [
@@ -617,6 +618,95 @@ def run_e2e(ctx, n_apis, nreq, reserved, tag="e2e", fixed=None):
     return failing, deferred
 
 
+# ====================================================================== the alternative (Ads) template tree
+ADS_METHODS = [
+    {"name": "RouteA", "kind": "explicit", "params": [("table_name", "{routing_id=projects/*}/**"), ("app_profile_id", None)], "http": ("post", "/v1/a:route"), "body": "*",
+     "requests": [{"table_name": "projects/p1/instances/i", "app_profile_id": "prof"}]},
+    {"name": "RouteB", "kind": "explicit", "params": [("table_name", "{routing_id=projects/*}/**")], "http": ("post", "/v1/{name=shelves/*}:route"), "body": "*",
+     "requests": [{"table_name": "projects/p1/instances/i", "name": "shelves/s1"}]},
+    {"name": "RouteC", "kind": "explicit", "params": [], "http": ("post", "/v1/{name=**}:route"), "body": "*", "requests": [{"name": "shelves/s1"}]},
+    {"name": "RouteD", "kind": "implicit", "params": [], "http": ("get", "/v1/{name=shelves/*}/{sub.class}"), "body": None, "vars": ["name", "sub.class"],
+     "requests": [{"name": "shelves/s1", "sub.class": "c d"}]},
+    {"name": "RouteE", "kind": "none", "params": [], "http": ("post", "/v1/e:plain"), "body": "*"},
+    {"name": "RouteF", "kind": "implicit", "params": [], "http": ("custom", "/v1/{type=things/*}"), "body": None, "vars": ["type"]},
+]
+
+
+def run_ads(ctx, reserved, methods=None, tag="ads"):
+    """python-gapic-templates=ads-templates: the sync gRPC client of the Ads tree against the loopback server.
+    Model: emit_ads / header_of_ads = the standard ones (the Ads client.py.j2 expands the same create_metadata macro)."""
+    methods = methods or ADS_METHODS
+    deferred, checks = [], []
+    req, req_fqn = build_api(env.rng("C06-ads"), methods)
+    req = gen.with_params(req, ["python-gapic-templates=ads-templates", "old-naming", "transport=grpc"])
+    case0 = {"ads": True, "methods": methods, "request_b64": apigen.req_b64(req)}
+    res, err = gen.run_generator(req)
+    if res is None:
+        ctx.violation(f"ads templates: generation fails: {gen.error_kind(err)}", dict(case0, stderr=err[-1200:]))
+        return deferred
+    files = gen.files_of(res)
+    name = next((n for n in files if n.endswith("services/router/client.py")), None)
+    if name is None:
+        ctx.oblige("T1 ads: services/router/client.py emitted", False, str(sorted(files)[:8]), "T1")
+        return deferred
+    pkg = name[:-len("/services/router/client.py")].replace("/", ".")
+    try:
+        sync_m = client_methods(files[name], "Client")
+    except Exception as e:  # noqa
+        ctx.violation(f"ads templates: emitted client does not parse: {type(e).__name__}: {e}", case0)
+        return deferred
+    for m in methods:
+        try:
+            k, its = extract_routing(sync_m[snake(m["name"])])
+        except Exception as e:  # noqa
+            ctx.oblige(f"T1 ads {m['name']}: extraction of the routing block", False, f"{type(e).__name__}: {e}", "T1")
+            continue
+        checks.append((f"ads {m['name']}: emitted block = model (emit_ads)", f"res_eqb emitted_eqb (emit_ads {method_term(m)}) (Ok {emitted_term(k, its)})"))
+    d = gen.case_dir(f"c06-{tag}")
+    gen.materialize(res, d)
+    D = dyn.Dyn(req)
+    calls, meta = [], []
+    for mi, m in enumerate(methods):
+        for vals in gen_requests(env.rng("C06-ads-req", mi), m, 2):
+            msg = D.new(req_fqn)
+            for p, v in vals.items():
+                set_path(msg, p, v)
+            calls.append({"service_module": "router", "client": "RouterClient", "transport": "grpc", "method": snake(m["name"]),
+                          "request": {"mode": "message", "cls": pkg + ".types.library:RouteRequest", "b64": D.b64(msg)},
+                          "call_kwargs": {"retry": "none", "timeout": 10.0}})
+            meta.append((m, vals))
+    try:
+        out = gen.impl("drive", {"root": d, "package": pkg, "calls": calls}, timeout=600)
+    except Exception as e:  # noqa
+        ctx.violation(f"ads templates: the emitted library cannot be imported / driven: {str(e)[-400:]}", case0)
+        gen.rm(d)
+        return deferred
+    gen.rm(d)
+    for rec, (m, vals) in zip(out, meta):
+        obs = observed_headers(rec, "grpc")
+        case = dict(case0, method=m, values=vals, transport="grpc")
+        if obs is None:
+            ctx.violation(f"ads templates: grpc call of {m['name']} raised {rec.get('error')}", case)
+            continue
+        want = expected_for(m, vals)
+        want_l = [] if want is None else [want]
+        ctx.case({"ads": True, "method": m["name"], "values": vals}, nontrivial=m["kind"] != "none", feature=[f"ads:{m['kind']}"])
+        if obs != want_l:
+            what = f"ads templates, {m['name']} via grpc: server saw {ROUTING_KEY}={obs}, the property requires {want_l} for request {vals}"
+            if any("\n" in v for v in vals.values()):
+                deferred.append((what, case, "routing.newline_value"))
+            else:
+                ctx.violation(what, case)
+        attr_vals = [(".".join(c + "_" if c in reserved else c for c in p.split(".")), v) for p, v in vals.items()]
+        o = "None" if not obs else f"(Some {coq.s(obs[0])})"
+        checks.append((f"ads {m['name']} {vals!r}: header seen by the gRPC server = model (header_of_ads)",
+                       f"res_eqb (option_eqb String.eqb) (header_of_ads {method_term(m)} (req_of {coq.pairs(attr_vals)})) (Ok {o})" if len(obs) <= 1 else "false"))
+    failing, errors, _ = coq.eval_checks("c06" + tag, IMPORTS, "", checks)
+    ctx.oblige(f"T1+T2 ads templates: emitted routing blocks = model's emit_ads, header at the loopback server = model's header_of_ads ({len(checks)} comparisons)",
+               not failing and not errors and len(checks) > 0, "; ".join((failing + errors)[:8]), "T1")
+    return deferred
+
+
 # ====================================================================== known finding class: witnesses replayed on the implementation
 def run_witnesses(ctx):
     """The witnesses of C06_newline_refuted / C06_newline_final_refuted on the real code (known finding routing.newline_value)."""
@@ -635,7 +725,7 @@ def run_witnesses(ctx):
 def load_corpus():
     """corpus/C06/*.json: former failing inputs (fixed upstream) that run first, so that a regression is reported."""
     d = os.path.join(env.VERIF, "corpus", "C06")
-    e2e, pure, requests = [], {}, {}
+    e2e, pure, ads = [], {}, []
     for f in sorted(os.listdir(d)) if os.path.isdir(d) else []:
         if not f.endswith(".json"):
             continue
@@ -650,7 +740,12 @@ def load_corpus():
             e2e.append(c["methods"])
         elif c.get("kind") == "pure":
             pure.setdefault(c["template"], []).extend(c.get("values", []))
-    return e2e, pure
+        elif c.get("kind") == "ads":
+            for m in c["methods"]:
+                m["params"] = [tuple(p) for p in m["params"]]
+                m["http"] = tuple(m["http"])
+            ads.append(c["methods"])
+    return e2e, pure, ads
 
 
 # ====================================================================== entry points
@@ -702,7 +797,7 @@ def run(ctx):
     reserved = set(ctx.notes["t0"]["RESERVED_NAMES"])
     deferred = []
     # corpus first: the in-code API and corpus/C06/*.json (former findings, fixed upstream)
-    c_e2e, c_pure = load_corpus()
+    c_e2e, c_pure, c_ads = load_corpus()
     fixed = corpus_methods() + c_e2e
     _, d = run_e2e(ctx, len(fixed), 4, reserved, tag="corpus", fixed=fixed)
     deferred += d
@@ -714,6 +809,9 @@ def run(ctx):
     deferred += d
     _, d = run_e2e(ctx, ctx.n(5, 60), ctx.n(3, 5), reserved)
     deferred += d
+    deferred += run_ads(ctx, reserved)
+    for k, ms in enumerate(c_ads):           # corpus/C06: former finding routing.ads_ignores_explicit (fixed by eec5aba)
+        deferred += run_ads(ctx, reserved, methods=ms, tag=f"adscorpus{k}")
     deferred += run_witnesses(ctx)
     flush(ctx, deferred)          # known finding classes last, one per signature
 
@@ -730,6 +828,8 @@ def replay(ctx, rep):
         out = gen.impl("routing", {"templates": [{"template": c["template"], "field": c.get("field", "fld"), "values": [c.get("value", "")]}]})
         print("replay:", json.dumps({"template": c["template"], "value": c.get("value"), "implementation": out["templates"][0],
                                      "aip_4222": G.aip_contribution(G.parse_template(c["template"]), c.get("value", "")) if G.parse_template(c["template"]) else None}))
+    elif "methods" in c and c.get("ads"):
+        deferred = run_ads(ctx, reserved, methods=c["methods"], tag="adsreplay")
     elif "methods" in c:
         _, deferred = run_e2e(ctx, 1, 4, reserved, tag="replay", fixed=[c["methods"]])
     elif "uri" in c:
